@@ -92,6 +92,13 @@ def reader_stubs(reader):
 
 def h_try_branch(engine, st, fr, callee, argv, m):
     r = argv[0]
+    if isinstance(r, Blob):
+        # result of an unmodelled call: either outcome, opaque payloads
+        d = z3.BitVec("blobtry_%d" % next(engine.fresh), 64)
+        c = z3.ULT(d, z3.BitVecVal(2, 64))
+        engine.solver.add(c)
+        st.pc.append(c)
+        return EnumV("ControlFlow", d, {0: [Blob("ok of " + r.label)], 1: [EnumV("Result", 1, {1: [Blob("err of " + r.label)]})]})
     if not isinstance(r, EnumV):
         raise Unsupported("Try::branch on %r" % (r,))
     if "Option" in m.group(1)[:30] and r.name == "Option":
